@@ -56,6 +56,8 @@ PROGRAMS = [
     "if x: a = 1\nelif y: b = 2\nelse: c = 3",
     "x = a if(b) else c\ny = not(f) or (g)\nz = ((h))\nw = a if(b)else c",
     "f(a, k=b, *c, **d)\nclass C(B, m=M, *N): pass",
+    # 46: delimiters shared between a call and its solo generator argument
+    "s = sum(x for x in y)\nprint(a, (i for i in j))\n@d(k for k in l)\ndef f(): pass",
 ]
 
 for _p in PROGRAMS:
